@@ -68,8 +68,25 @@ func (ctx Ctx) Decls(fs ...NamedFile) (imports coq.ImportDecls, decls []coq.Decl
 	nameDecls := make(map[string]declId)
 	generated := make(map[declId]bool)
 
+	// the units of translation, error recovery and reordering: top-level
+	// declarations, with every spec of a const or var group on its own
+	units := make([][]ast.Decl, len(fs))
 	for fi, f := range fs {
-		for di, d := range f.Ast.Decls {
+		for _, d := range f.Ast.Decls {
+			gd, ok := d.(*ast.GenDecl)
+			if ok && (gd.Tok == token.CONST || gd.Tok == token.VAR) && len(gd.Specs) > 1 {
+				for _, spec := range gd.Specs {
+					units[fi] = append(units[fi], &ast.GenDecl{
+						TokPos: spec.Pos(), Tok: gd.Tok, Specs: []ast.Spec{spec}})
+				}
+				continue
+			}
+			units[fi] = append(units[fi], d)
+		}
+	}
+
+	for fi := range fs {
+		for di, d := range units[fi] {
 			ctx.dep = &depTracker{}
 
 			id := declId{fi, di}
@@ -124,7 +141,7 @@ func (ctx Ctx) Decls(fs ...NamedFile) (imports coq.ImportDecls, decls []coq.Decl
 			decls = append(decls, coq.NewComment(f.Ast.Doc.Text()))
 		}
 		lastFile = fi
-		for di := range f.Ast.Decls {
+		for di := range units[fi] {
 			processDecl(declId{fi, di}, "")
 		}
 	}
